@@ -83,11 +83,18 @@ class DiagCodedType:
         # A_BYTEFIELD, A_ASCIISTRING, A_UNICODE2STRING, A_UTF8STRING
         if self.base_data_type == DataType.A_BYTEFIELD:
             byte_length = len(internal_value)
-        elif self.base_data_type in [DataType.A_ASCIISTRING, DataType.A_UTF8STRING]:
+        elif self.base_data_type == DataType.A_ASCIISTRING:
             if not isinstance(internal_value, str):
                 odxraise()
 
+            # A_ASCIISTRING objects are encoded using ISO-8859-1,
+            # i.e., every character occupies exactly one byte
             # TODO: Handle different encodings
+            byte_length = len(bytes(internal_value, "iso-8859-1"))
+        elif self.base_data_type == DataType.A_UTF8STRING:
+            if not isinstance(internal_value, str):
+                odxraise()
+
             byte_length = len(bytes(internal_value, "utf-8"))
         elif self.base_data_type == DataType.A_UNICODE2STRING:
             if not isinstance(internal_value, str):
